@@ -83,8 +83,13 @@ class Repo:
                     pp2 = canon.align_private_params(m_.tree, refmod.get("<params>", {}), trees)   # a renaming may be followed by restoring the order
                     if pp1 or pp2:
                         m_.tree._verif_params = dict(pp1, **{k + " (2)": v for k, v in pp2.items()})
+            adopted = canon.adopt_imported_helpers({d_: m_.tree for d_, m_ in self.modules.items()}, self._ref)
             for dotted, m_ in self.modules.items():
                 applied = canon.canonicalise(dotted, m_.tree, self._ref)
+                mine = [a_ for a_ in adopted if a_.startswith(dotted + " adopts ")]
+                if mine:
+                    applied = dict(applied or {})
+                    applied["<adopted helpers>"] = {a_: "" for a_ in mine}
                 if applied:
                     self.renames[dotted] = applied
         # calls by keyword to functions of the package are re-written positionally (second pass: needs every module's signatures)
